@@ -148,7 +148,9 @@ class Run(RunBase):
         except Exception as e:  # noqa
             raise Violation(self._sig("find_lanelet_by_shape-raised"),
                             f"find_lanelet_by_shape({raw['t']}) raised {type(e).__name__}: {e}")
-        truth = {i: geom.shape_meets_polygon(raw, poly) for i, (poly, _) in polys.items()}
+        # the index has to mirror what the shape's exported geometry denotes (for circles see the open known
+        # finding handled in _check_shape_semantics)
+        truth = {i: geom.shape_meets_polygon(geom.exported(raw), poly) for i, (poly, _) in polys.items()}
         missing, extra = geom.compare_sets(got, truth)
         if missing or extra or len(got) != len(set(got)):
             raise Violation(self._sig(f"find_lanelet_by_shape[{raw['t']}]"),
@@ -174,12 +176,25 @@ class Run(RunBase):
             if g != t:
                 raise Violation(f"C06/shape-semantics/contains_point[{raw['t']}]",
                                 f"{raw['t']} {_fmt(raw)}.contains_point({list(p)}) = {g}, closed form says {t}")
+            if raw["t"] == "circ" and geom.circle_export_scale() != 1.0:
+                continue  # exported geometry of circles: open known finding, checked as a whole below
             if raw["t"] != "group" and not in_band:
                 e = bool(shape.shapely_object.intersects(SPoint(p[0], p[1])))
                 if e != t:
                     raise Violation(f"C06/shape-semantics/shapely_object[{raw['t']}]",
                                     f"{raw['t']} {_fmt(raw)}: exported geometry contains {list(p)} = {e}, the shape "
                                     f"denotes {t} there")
+        if raw["t"] == "circ" and geom.circle_export_scale() != 1.0:
+            a, ea = float(shape.shapely_object.area), geom.shape_area(geom.exported(raw))
+            if abs(a - ea) > 0.01 * ea:
+                raise Violation("C06/shape-semantics/area[circ]",
+                                f"circ {_fmt(raw)}: exported geometry has area {a:.6g}; neither the disc of radius r "
+                                f"nor the known half-radius disc ({ea:.6g})")
+            self.soft("C06/shape-semantics/circle-exports-half-radius",
+                      f"Circle(radius=r).shapely_object is the disc of radius r/2 (area {a:.4g} for r={raw['r']:.4g}) "
+                      f"while contains_point uses radius r: containment test and exported geometry denote "
+                      f"different sets")
+            return
         if raw["t"] != "group":
             a, ea = float(shape.shapely_object.area), geom.shape_area(raw)
             tol = 0.01 if raw["t"] == "circ" else 1e-9
@@ -194,7 +209,7 @@ class Run(RunBase):
             return
         truth = {}
         for o in obs:
-            raw = geom.raw_shape(o.occupancy_at_time(0).shape)
+            raw = geom.exported(geom.raw_shape(o.occupancy_at_time(0).shape))
             for i, (poly, _) in polys.items():
                 truth[(o.obstacle_id, i)] = geom.shape_meets_polygon(raw, poly)
         try:
